@@ -56,6 +56,10 @@ inductive Verb where
       stay behind without a task (answers to them are dropped as for any
       unknown id, which is all the model keeps of them) -/
   | loadCorrupt
+  /-- ReloadConfiguration of a path that cannot be loaded, once the handler answers
+      instead of panicking: failure at once, the task created before is cancelled
+      (its id is spent) -/
+  | reloadRefused
   /-- ReloadConfiguration of a readable file generating `k` messages:
       LoadStaticConfigTask, `Timeout::None`, request indices `0 … k-1` -/
   | reload (k : Nat)
@@ -252,7 +256,7 @@ def Verb.isStop : Verb → Bool
 
 /-- answered at once by the main process -/
 def Verb.immediate : Verb → Option St
-  | .workerBad | .loadMissing | .loadCorrupt => some .failure
+  | .workerBad | .loadMissing | .loadCorrupt | .reloadRefused => some .failure
   | .localOk => some .ok
   | _ => none
 
@@ -316,7 +320,7 @@ def Verb.preNotices : Verb → Nat
 
 /-- `new_task` was called although no task survives the handler -/
 def Verb.spendsTaskId : Verb → Bool
-  | .loadCorrupt => true
+  | .loadCorrupt | .reloadRefused => true
   | _ => false
 
 /-- what `handle_client_request` queues for the client right away -/
